@@ -211,7 +211,7 @@ fn run_case(id: String, seed: u64, n: usize, k: usize, nq: usize, out: &mut Case
 }
 
 pub fn run(ctx: &mut Ctx) {
-    let ncases = ctx.pick(96u64, 800);
+    let ncases = ctx.pick(32u64, 800);
     let k = ctx.pick(4usize, 12);
     let nq = ctx.pick(40usize, 60);
     for i in 0..ncases {
